@@ -350,6 +350,27 @@ func (r *c01Run) do(op []string) (mutating bool) {
 		err := r.s.DeleteCacheFile(a[1])
 		r.mop(a, c01Class(err))
 		return true
+	case len(a) == 2 && (a[0] == "block" || a[0] == "unblock") && len(a[1]) == 2 && c01NameOK(a[1]):
+		// fault injection: a plain file where the first-level shard directory of the cache would go makes
+		// every file operation below it fail (ENOTDIR); only possible while no such directory exists
+		p := r.s.config.CacheDir + "/" + a[1]
+		fi, err := os.Lstat(p)
+		res := "ok"
+		if a[0] == "block" {
+			if err == nil {
+				res = "exist"
+			} else if werr := os.WriteFile(p, nil, 0644); werr != nil {
+				res = "fail"
+			}
+		} else {
+			if err != nil || fi.IsDir() {
+				res = "notexist"
+			} else if rerr := os.Remove(p); rerr != nil {
+				res = "fail"
+			}
+		}
+		r.mop(a, res)
+		return true
 	case len(a) == 2 && a[0] == "probe" && c01NameOK(a[1]):
 		r.probe(a[1])
 		return false
@@ -429,6 +450,7 @@ func c01Exec(t *verifh.T, c verifh.Case) {
 	}
 	sort.Strings(r.names)
 	t.Cfg(c.Cfg...)
+	r.probeAll() // the initial view of every name (nothing is there yet)
 	for _, op := range c.Ops {
 		op := op
 		var mut bool
@@ -486,6 +508,8 @@ func TestVerif_C01(t *testing.T) {
 		{"op", "ttl"},
 		{"op", "delete", A.name},
 		{"op", "genMeta", A.name, "3"},
+		{"op", "block", A.name[:2]},
+		{"op", "unblock", A.name[:2]},
 	}
 	cfgs := [][]string{
 		{"mem=1", "max=64", "retries=1", "ttl=10000000000", "skip=0"},
@@ -493,7 +517,7 @@ func TestVerif_C01(t *testing.T) {
 	}
 	// quick: the full alphabet to depth 2 and its core (the first four writes, drain, tick, ttl) to depth 3;
 	// thorough: full alphabet to depth 3, core to depth 4
-	core := [][]string{alpha[0], alpha[1], alpha[2], alpha[7], alpha[8], alpha[9], alpha[6]}
+	core := [][]string{alpha[0], alpha[1], alpha[2], alpha[7], alpha[8], alpha[9], alpha[6], alpha[12], alpha[13]}
 	var rec func(al [][]string, cfg []string, prefix [][]string, d int)
 	rec = func(al [][]string, cfg []string, prefix [][]string, d int) {
 		if d == 0 {
@@ -663,6 +687,11 @@ func TestVerif_C01(t *testing.T) {
 				ops = append(ops, []string{"op", "genMeta", pickName(), strconv.Itoa(r.Intn(5))})
 			default:
 				ops = append(ops, []string{"op", "list"})
+			}
+			if r.Chance(1, 12) {
+				// the disk refuses one blob's shard for a while: drain retries, gives up, or succeeds later
+				ops = append(ops, []string{"op", r.Pick("block", "block", "unblock"), names[r.Intn(3)][:2]})
+				tr.Count("random_op_block", 1)
 			}
 		}
 		if i < 2 {
